@@ -239,8 +239,12 @@ where
   ) -> ReadResult<Vec<DataSample<D>>> {
     // Clear notification buffer. This must be done first to avoid race conditions.
     self.drain_read_notifications();
+    #[cfg(rustdds_verif)]
+    crate::verif::sched::point("DataReader.take.after_drain");
 
     self.fill_and_lock_local_datasample_cache()?;
+    #[cfg(rustdds_verif)]
+    crate::verif::sched::point("DataReader.take.after_fill");
     let mut selected = self.select_keys_for_access(read_condition);
     trace!("take selected count = {}", selected.len());
     selected.truncate(max_samples);
@@ -354,7 +358,11 @@ where
   ) -> ReadResult<Vec<Sample<D, D::K>>> {
     // Clear notification buffer. This must be done first to avoid race conditions.
     self.drain_read_notifications();
+    #[cfg(rustdds_verif)]
+    crate::verif::sched::point("DataReader.take_bare.after_drain");
     self.fill_and_lock_local_datasample_cache()?;
+    #[cfg(rustdds_verif)]
+    crate::verif::sched::point("DataReader.take_bare.after_fill");
 
     let mut selected = self.select_keys_for_access(read_condition);
     trace!("take bare selected count = {}", selected.len());
@@ -935,9 +943,13 @@ where
             // 1. synchronously store waker to background thread (must rendezvous)
             // 2. try take_bare again, in case something arrived just now
             // 3. if nothing still, return pending.
+            #[cfg(rustdds_verif)]
+            crate::verif::sched::point("DRStream.before_set_waker");
             datareader
               .simple_data_reader
               .set_waker(Some(cx.waker().clone()));
+            #[cfg(rustdds_verif)]
+            crate::verif::sched::point("DRStream.after_set_waker");
             match datareader.take_bare(1, ReadCondition::not_read()) {
               Err(e) => Poll::Ready(Some(Err(e))),
               Ok(mut v) => match v.pop() {
@@ -1027,9 +1039,13 @@ where
             // 1. synchronously store waker to background thread (must rendezvous)
             // 2. try take again, in case something arrived just now
             // 3. if nothing still, return pending.
+            #[cfg(rustdds_verif)]
+            crate::verif::sched::point("DRStream.before_set_waker");
             datareader
               .simple_data_reader
               .set_waker(Some(cx.waker().clone()));
+            #[cfg(rustdds_verif)]
+            crate::verif::sched::point("DRStream.after_set_waker");
             match datareader.take(1, ReadCondition::not_read()) {
               Err(e) => Poll::Ready(Some(Err(e))),
               Ok(mut v) => match v.pop() {
